@@ -227,6 +227,12 @@ func accAtoms(b *Built) atomSet {
 	al.num("balance[EUR/2]", "$gte", 0)
 	al.num("balance[EUR/2]", "$gt", 0)
 	al.num("balance[COIN]", "$gt", 0)
+	// no asset named (all the v1 `balance` parameter can say): the test holds when it holds
+	// for one of the assets the account has moved
+	al.num("balance", "$lt", 0)
+	al.num("balance", "$gte", 0)
+	al.num("balance", "$gt", 10)
+	al.num("balance", "$match", 0)
 	metaKV := al.str("metadata[k]", "$match", "v")
 	al.str("metadata[k]", "$match", "w")
 	metaRole := al.str("metadata[role]", "$match", "r")
